@@ -626,8 +626,36 @@ def gen_rt_batch(rng, clock):
     return {'clock': clock, 'tempo': rng.choice(['1', '2']), 'items': items, 'expect': len(exp)}, exp
 
 
+def gen_app_batch(rng, inside):
+    """several tasks due at ONE AppClock tick (delta slot 0 dominates), some Function objects scheduled again"""
+    items = []
+    for i in range(rng.randint(3, 8)):
+        kind = rng.choice(['plain', 'plain', 'plain', 'wrap'])
+        items.append(['%s%d' % (kind[0], i), kind, rng.randrange(2), rng.choice([0, 0, 0, 1, 1, 2])])
+    keys = {('w', it[2]) if it[1] == 'wrap' else ('p', n) for n, it in enumerate(items)}
+    return {'clock': 'app', 'inside': inside, 'items': items, 'expect': len(keys)}
+
+
+def app_expected(b, r):
+    """reference order from the due times read back from the queue: (time, scheduling order); the same object = re-add"""
+    due = {lab: Fraction(float(t)) for lab, t in r.get('queued', [])}
+    q, label = oracle.SortedListQueue(), {}
+    for n, (lab, kind, obj, k) in enumerate(b['items']):
+        key = ('w', obj) if kind == 'wrap' else ('p', n)
+        label[key] = lab
+    for n, (lab, kind, obj, k) in enumerate(b['items']):
+        key = ('w', obj) if kind == 'wrap' else ('p', n)
+        if label[key] == lab and lab in due:              # the last scheduling of an object is the one queued
+            q.add(due[lab], key)
+        elif label[key] == lab:
+            return None
+    return [label[t] for _, t in q]
+
+
 def check_rt(ctx, c, n):
     pairs = [gen_rt_batch(ctx.rng, 'system' if i % 2 == 0 else 'tempo') for i in range(n)]
+    pairs += [(gen_app_batch(ctx.rng, inside=(i % 2 == 1)), None) for i in range(n)]
+    pairs += [({'clock': 'app', 'inside': True, 'expect': 3, 'items': [['a', 'plain', 0, 0], ['b', 'plain', 0, 0], ['c', 'plain', 0, 0]]}, None)]
     # the minimal shape first: one function scheduled twice with another task in between
     fixed = {'clock': 'system', 'tempo': '1', 'expect': 3, 'items': [['tick1', 'plain', 0, 1], ['other', 'plain', 1, 2], ['tick2', 'plain', 0, 3]]}
     pairs = [(fixed, ['tick1', 'other', 'tick2']), (dict(fixed, clock='tempo', tempo='2'), ['tick1', 'other', 'tick2'])] + pairs
@@ -638,7 +666,16 @@ def check_rt(ctx, c, n):
         return []
     out = []
     for (b, exp), r in zip(pairs, res):
-        c.count('user:rt-' + b['clock']); c.evaluations += 1
+        c.count('user:rt-' + b['clock'] + ('-inside' if b.get('inside') else '')); c.evaluations += 1
+        if b['clock'] == 'app':
+            exp = app_expected(b, r) if 'error' not in r else None
+            if exp is None:
+                out.append(Failure('search', 'AppClock batch: scheduled tasks are missing from the queue or the runner failed: %s for %s'
+                                   % (r, json.dumps(b)), signature='C09:user-rt:app', replay={'rt_batches': [b], 'observed': r},
+                                   found_input=True, theorem='item_at_most_once'))
+                continue
+            ts = [t for _, t in r.get('queued', [])]
+            if len(set(ts)) < len(ts) or len(ts) > 1: c.count('user:rt-app-several-due-at-one-tick')
         if r.get('log') == exp:
             c.nontriv(('rt', json.dumps(b, sort_keys=True)))
             continue
